@@ -17,12 +17,17 @@ def main():
     checks = []
     na = []
     served = []
-    import subprocess
-    tracked = set(subprocess.check_output(["git", "-C", HERE, "ls-files", "vrules/props"], text=True).split())
+    # claimed = what the current manifest already claims + ids given on the command line (a module file that merely
+    # exists may be work in progress)
+    claimed = set(a.upper() for a in sys.argv[1:])
+    try:
+        claimed |= {c["property_id"] for c in json.load(open(os.path.join(HERE, "MANIFEST.json")))["checks"]}
+    except Exception:
+        pass
     for p in props:
         pid = p["id"]
         path = os.path.join(HERE, "vrules", "props", pid.lower() + ".py")
-        if not os.path.exists(path) or pid in na_reasons or ("vrules/props/%s.py" % pid.lower()) not in tracked:
+        if not os.path.exists(path) or pid in na_reasons or pid not in claimed:
             na.append({"property_id": pid,
                        "reason": na_reasons.get(pid, "no static rule implemented yet for this property; not claimed")})
             continue
